@@ -288,6 +288,14 @@ def generate():
         e2, c2, _ = translate.generate()
         errors += e2
         changed += c2
+        # whole codec methods, state-passing -> lean/Acra/Gen/Src/Cls/*.lean (harness/translate_methods.py)
+        try:
+            from . import translate_methods
+        except ImportError:
+            import translate_methods
+        e3, c3, _ = translate_methods.generate()
+        errors += e3
+        changed += c3
     except Exception as e:
         errors.append("source translator: %r" % (e,))
     return errors, changed
